@@ -191,6 +191,7 @@ func insBytes() int {
 //@ prop C02 C05
 //@ func (m *machine) insert(i *instruction)
 //@   trusted
+//@   maybe-nil i
 //@   records H:insKind = int(i.kind)
 //@   records H:insU1 = int(i.u1)
 //@   modifies ghost("H:insKind"), ghost("H:insU1"), m.pendingInstructions, elems(m.pendingInstructions)
